@@ -37,9 +37,8 @@ HARNESSES = {
     'k_aliases': {'kind': 'complete', 'domain': 'all arguments of the builder alias pairs', 'timeout': 300, 'tier': 'quick'},
     'k_api_ticks_video': {'kind': 'complete', 'domain': 'all f64 bit patterns for pts and dts of the first frame, real Muxer::write_video_with_dts (VP9 keyframe)', 'timeout': 1800, 'tier': 'quick'},
     'k_api_ticks_second_frame': {'kind': 'complete', 'domain': 'all f64 bit patterns for the second frame time, real Muxer::write_video', 'timeout': 1800, 'tier': 'quick'},
+    'k_api_ticks_audio': {'kind': 'complete', 'domain': 'all f64 bit patterns for the first video time and the first audio time, real Muxer::write_video + write_audio (VP9 + Opus)', 'timeout': 2400, 'tier': 'quick'},
     'k_ticks_nearest': {'kind': 'complete', 'domain': 'all finite f64 seconds x >= 0 with x*90000 < 2^53', 'timeout': 900, 'tier': 'thorough'},
-    'kb_ticks_monotone': {'kind': 'bounded', 'domain': 'seconds i/1024 for i < 2^30', 'timeout': 900, 'tier': 'thorough'},
-    'kb_stats_secs': {'kind': 'bounded', 'domain': 'tick counts below 2^32', 'timeout': 900, 'tier': 'thorough'},
     'kb_total_duration': {'kind': 'bounded', 'domain': 'up to 4 durations, all u32 values', 'timeout': 300, 'tier': 'quick'},
     'kb_total_duration_fits': {'kind': 'bounded', 'domain': 'up to 3 samples, all u32 / absent durations, all u64 timestamps', 'timeout': 600, 'tier': 'quick'},
     'kb_from_samples_0': {'kind': 'bounded', 'domain': '0 samples', 'timeout': 300, 'tier': 'quick'},
